@@ -27,7 +27,8 @@ RULE = ("One case = one whole event history applied to a fresh FSM (kinds fsm / 
         "restart counter zero / positive, each followed by every event of an 81-event alphabet (5 administrative events, "
         "timer, codes 0-14 and 255 x identifier current/next/previous/fixed x answer class x data length) and, for two "
         "configurations, by every pair of events from a 22-event alphabet; all sequences of length <= 3 (thorough: 4) "
-        "from Initial; random weighted walks of length 60 (thorough 80). Compared exactly after every event: state, "
+        "from Initial; random weighted walks of length 60 (thorough 80). The Identifiers of originated packets (start value and policy) are the "
+        "implementation's choice: read from its output and checked for admissibility. Compared exactly after every event: state, "
         "restartCount, timer armed, lastReqID, id, failCount, and the list of sends (code, id, payload class) and "
         "layer callbacks, the CONTENT of every Configure-Request sent (predicted from the model of the real handlers' "
         "BuildConfReq over the handler-call log) and every call the FSM makes into the option handler "
